@@ -142,7 +142,7 @@ fn cursor_scan_two_leaves() {
 }
 
 // ---- C08-Ob3: seek on one leaf: reports presence; iteration continues from the key or an immediate neighbour
-// @ob props=C08,C07 tier=quick cap=900 fns=Cursor::seek,search,Cursor::next,Cursor::current,PageNode::index bound="root leaf page with 3 sorted symbolic 2-byte keys; seek key symbolic 2 bytes; then up to 4 calls of next()" unwind=5
+// @ob props=C08,C07 tier=quick cap=800 mem=6 fns=Cursor::seek,search,Cursor::next,Cursor::current,PageNode::index bound="root leaf page with 3 sorted symbolic 2-byte keys; seek key symbolic 2 bytes; then up to 4 calls of next()" unwind=5
 #[kani::proof]
 #[kani::unwind(5)]
 fn cursor_seek_single_leaf() {
@@ -266,63 +266,63 @@ fn range_case(sk: u8, ek: u8) {
     std::mem::forget(b);
 }
 
-// @ob props=C08,C07 tier=quick cap=1200 mem=16 fns=Range::next,Cursor::seek,Cursor::next,Cursor::current,Bucket::range bound="root leaf page with 2 sorted symbolic 2-byte keys; three calls of next(); start bound included, end bound included, both bound keys symbolic" unwind=5
+// @ob props=C08,C07 tier=thorough cap=1500 mem=12 fns=Range::next,Cursor::seek,Cursor::next,Cursor::current,Bucket::range bound="root leaf page with 2 sorted symbolic 2-byte keys; three calls of next(); start bound included, end bound included, both bound keys symbolic" unwind=5
 #[kani::proof]
 #[kani::unwind(5)]
 fn range_included_included() {
     range_case(0, 0);
 }
 
-// @ob props=C08,C07 tier=quick cap=1200 mem=16 fns=Range::next,Cursor::seek,Cursor::next,Cursor::current,Bucket::range bound="root leaf page with 2 sorted symbolic 2-byte keys; three calls of next(); start bound included, end bound excluded, both bound keys symbolic" unwind=5
+// @ob props=C08,C07 tier=thorough cap=1500 mem=12 fns=Range::next,Cursor::seek,Cursor::next,Cursor::current,Bucket::range bound="root leaf page with 2 sorted symbolic 2-byte keys; three calls of next(); start bound included, end bound excluded, both bound keys symbolic" unwind=5
 #[kani::proof]
 #[kani::unwind(5)]
 fn range_included_excluded() {
     range_case(0, 1);
 }
 
-// @ob props=C08,C07 tier=quick cap=1200 mem=16 fns=Range::next,Cursor::seek,Cursor::next,Cursor::current,Bucket::range bound="root leaf page with 2 sorted symbolic 2-byte keys; three calls of next(); start bound included, end bound unbounded, both bound keys symbolic" unwind=5
+// @ob props=C08,C07 tier=quick cap=800 mem=12 fns=Range::next,Cursor::seek,Cursor::next,Cursor::current,Bucket::range bound="root leaf page with 2 sorted symbolic 2-byte keys; three calls of next(); start bound included, end bound unbounded, both bound keys symbolic" unwind=5
 #[kani::proof]
 #[kani::unwind(5)]
 fn range_included_unbounded() {
     range_case(0, 2);
 }
 
-// @ob props=C08,C07 tier=quick cap=1200 mem=16 fns=Range::next,Cursor::seek,Cursor::next,Cursor::current,Bucket::range bound="root leaf page with 2 sorted symbolic 2-byte keys; three calls of next(); start bound excluded, end bound included, both bound keys symbolic" unwind=5
+// @ob props=C08,C07 tier=quick cap=800 mem=12 fns=Range::next,Cursor::seek,Cursor::next,Cursor::current,Bucket::range bound="root leaf page with 2 sorted symbolic 2-byte keys; three calls of next(); start bound excluded, end bound included, both bound keys symbolic" unwind=5
 #[kani::proof]
 #[kani::unwind(5)]
 fn range_excluded_included() {
     range_case(1, 0);
 }
 
-// @ob props=C08,C07 tier=quick cap=1200 mem=16 fns=Range::next,Cursor::seek,Cursor::next,Cursor::current,Bucket::range bound="root leaf page with 2 sorted symbolic 2-byte keys; three calls of next(); start bound excluded, end bound excluded, both bound keys symbolic" unwind=5
+// @ob props=C08,C07 tier=thorough cap=1500 mem=12 fns=Range::next,Cursor::seek,Cursor::next,Cursor::current,Bucket::range bound="root leaf page with 2 sorted symbolic 2-byte keys; three calls of next(); start bound excluded, end bound excluded, both bound keys symbolic" unwind=5
 #[kani::proof]
 #[kani::unwind(5)]
 fn range_excluded_excluded() {
     range_case(1, 1);
 }
 
-// @ob props=C08,C07 tier=quick cap=1200 mem=16 fns=Range::next,Cursor::seek,Cursor::next,Cursor::current,Bucket::range bound="root leaf page with 2 sorted symbolic 2-byte keys; three calls of next(); start bound excluded, end bound unbounded, both bound keys symbolic" unwind=5
+// @ob props=C08,C07 tier=thorough cap=1500 mem=12 fns=Range::next,Cursor::seek,Cursor::next,Cursor::current,Bucket::range bound="root leaf page with 2 sorted symbolic 2-byte keys; three calls of next(); start bound excluded, end bound unbounded, both bound keys symbolic" unwind=5
 #[kani::proof]
 #[kani::unwind(5)]
 fn range_excluded_unbounded() {
     range_case(1, 2);
 }
 
-// @ob props=C08,C07 tier=quick cap=1200 mem=16 fns=Range::next,Cursor::seek,Cursor::next,Cursor::current,Bucket::range bound="root leaf page with 2 sorted symbolic 2-byte keys; three calls of next(); start bound unbounded, end bound included, both bound keys symbolic" unwind=5
+// @ob props=C08,C07 tier=quick cap=400 fns=Range::next,Cursor::seek,Cursor::next,Cursor::current,Bucket::range bound="root leaf page with 2 sorted symbolic 2-byte keys; three calls of next(); start bound unbounded, end bound included, both bound keys symbolic" unwind=5
 #[kani::proof]
 #[kani::unwind(5)]
 fn range_unbounded_included() {
     range_case(2, 0);
 }
 
-// @ob props=C08,C07 tier=quick cap=1200 mem=16 fns=Range::next,Cursor::seek,Cursor::next,Cursor::current,Bucket::range bound="root leaf page with 2 sorted symbolic 2-byte keys; three calls of next(); start bound unbounded, end bound excluded, both bound keys symbolic" unwind=5
+// @ob props=C08,C07 tier=quick cap=400 fns=Range::next,Cursor::seek,Cursor::next,Cursor::current,Bucket::range bound="root leaf page with 2 sorted symbolic 2-byte keys; three calls of next(); start bound unbounded, end bound excluded, both bound keys symbolic" unwind=5
 #[kani::proof]
 #[kani::unwind(5)]
 fn range_unbounded_excluded() {
     range_case(2, 1);
 }
 
-// @ob props=C08,C07 tier=quick cap=1200 mem=16 fns=Range::next,Cursor::seek,Cursor::next,Cursor::current,Bucket::range bound="root leaf page with 2 sorted symbolic 2-byte keys; three calls of next(); start bound unbounded, end bound unbounded, both bound keys symbolic" unwind=5
+// @ob props=C08,C07 tier=quick cap=400 fns=Range::next,Cursor::seek,Cursor::next,Cursor::current,Bucket::range bound="root leaf page with 2 sorted symbolic 2-byte keys; three calls of next(); start bound unbounded, end bound unbounded, both bound keys symbolic" unwind=5
 #[kani::proof]
 #[kani::unwind(5)]
 fn range_unbounded_unbounded() {
